@@ -14,7 +14,7 @@ from typing import Any, Dict, Optional
 import numpy as np
 import z3
 
-from .core import Ctx, Inconclusive
+from .core import Ctx, Inconclusive, timed_check
 from .values import F64, SFloat, SInt, SLabel, model_float, model_int, to_ieee
 
 
@@ -53,7 +53,7 @@ class ConSrc:
     lab = i
 
 
-def witness(ctx: Ctx, src: SymSrc, extra: list = (), timeout_ms: int = 60000) -> Optional[dict]:
+def witness(ctx: Ctx, src: SymSrc, extra: list = (), timeout_ms: int = 30000) -> Optional[dict]:
     """Concrete inputs satisfying the current path condition (+extra) under
     IEEE-754 arithmetic; None if unsat there (artefact of the UF abstraction)."""
     s = z3.Solver()
@@ -64,7 +64,7 @@ def witness(ctx: Ctx, src: SymSrc, extra: list = (), timeout_ms: int = 60000) ->
     for e in extra:
         s.add(to_ieee(e, cache))
     t0 = time.time()
-    r = str(s.check())
+    r = timed_check(s, timeout_ms / 1000.0)
     ctx.stats.solver_s += time.time() - t0
     ctx.stats.queries[r] = ctx.stats.queries.get(r, 0) + 1
     if r == 'unsat':
